@@ -14,12 +14,13 @@
 (* Variant names the slips that four independently seeded changes made:    *)
 (*   "check_before_advance"  length compared with the un-advanced buffer   *)
 (*   "no_reset"              position not reset after advance              *)
+(*   "position_is_length"    position set to the length just split off     *)
 (***************************************************************************)
 EXTENDS Naturals, Sequences
 
 CONSTANTS Total,     \* length of the original input
           MaxOps,
-          Variant    \* "faithful" | "check_before_advance" | "no_reset"
+          Variant    \* "faithful" | "check_before_advance" | "no_reset" | "position_is_length"
 
 VARIABLES buflen,    \* length of the buffer still held
           position,  \* read position inside it
@@ -43,7 +44,7 @@ TakeBytes(len) ==
   /\ status = "run" /\ nops < MaxOps /\ nops' = nops + 1
   /\ LET advanced == buflen - position                       \* Buf::advance(position)
          fits == IF Variant = "check_before_advance" THEN len <= buflen ELSE len <= advanced
-         newpos == IF Variant = "no_reset" THEN position ELSE 0
+         newpos == IF Variant = "no_reset" THEN position ELSE IF Variant = "position_is_length" THEN len ELSE 0
      IN IF ~fits
         THEN status' = "err" /\ UNCHANGED <<buflen, position, logical>>
         ELSE IF len > advanced
